@@ -337,6 +337,8 @@ def representable(t, v, depth=0, in_list=False):
     if k == "any":
         def flat(x):
             return isinstance(x, str) and str_ok(x) and x != ""
+        if in_list and not v:
+            return False  # an empty untyped list inside a list leaves no cell
         return all(flat(x) or (isinstance(x, list) and x and all(flat(y) for y in x)) for x in v)
     if k == "list":
         if in_list and not v:
